@@ -4,6 +4,7 @@ From Dawn Require Import Build.Model.
 Inductive obs :=
 | ObsNone
 | ObsBuild (ok : bool) (ran : list label) (events : list (label * list N)) (recs : list (label * (bool * bool)))
+| ObsBuildNoRecs (ok : bool) (ran : list label) (events : list (label * list N))
 | ObsCrash (recs : list (label * (bool * bool)))
 | ObsGC (recs : list (label * (bool * bool))).
 
@@ -58,6 +59,13 @@ Definition check_step (w : world) (o : op) (ob : obs) : world * list N :=
        (if list_eqb N.eqb (sortN (o_ran out)) ran then [] else [3]) ++
        (if list_eqb lev_eqb (events_by_label (o_events out)) events then [] else [4]) ++
        (if list_eqb lrec_eqb (rec_listing w') recs then [] else [5]))
+  | OBuild c l, ObsBuildNoRecs ok ran events =>
+      let out := build c w l in
+      (o_w out,
+       (if o_bad out then [1] else []) ++
+       (if Bool.eqb (result_ok (o_res out)) ok then [] else [2]) ++
+       (if list_eqb N.eqb (sortN (o_ran out)) ran then [] else [3]) ++
+       (if list_eqb lev_eqb (events_by_label (o_events out)) events then [] else [4]))
   | OBuild c l, ObsCrash recs =>
       let out := build c w l in
       let w' := o_w out in
